@@ -475,6 +475,45 @@ pub fn oracle_c02_live(si: &ScriptInfo, tr: &Trace, clause: &str) -> Option<Viol
     None
 }
 
+/// C14 on the link: "the RTT estimate is the 0.9/0.1 moving average of the samples", and a sample is the age of a frame whose
+/// acknowledgement has just arrived. Whenever a side's estimate changes, the sample implied by the change must lie between the ages (time
+/// of the step that processed the acknowledgement minus time of the flush that emitted the frame) of the youngest and the oldest of its
+/// frames acknowledged for the first time by the ack frames handed over in that round. The upper end is taken from the time a frame was
+/// stamped with: flush() uses the clock of the previous step() (noted in section 5 of DESIGN.md, no property forbids it).
+pub fn oracle_rtt_samples(tr: &Trace) -> Option<Violation> {
+    for side in 0..2usize {
+        let mut acked: std::collections::HashSet<u32> = Default::default();
+        let obs: Vec<&Obs> = tr.obs.iter().filter(|o| o.side == side).collect();
+        // times of this side's steps, in order (index k = after k steps; 0 = creation)
+        let mut step_times: Vec<u64> = vec![0]; step_times.extend(obs.iter().filter(|o| o.stepped).map(|o| o.t_ms));
+        // every data frame of this side (frame ids are never reused within a run): time of the flush that emitted it, and the time it
+        // was stamped with - the clock of the last step() before that flush
+        let sent: HashMap<u32, (u64, u64)> = tr.ems.iter().filter(|e| e.side == side).filter_map(|e| match &e.frame { Some(Frame::DataFrame(d)) => Some((d.sequence_id, (e.t_ms, step_times.get(e.step_no as usize).copied().unwrap_or(e.t_ms)))), _ => None }).collect();
+        for w in 0..obs.len() {
+            let o = obs[w];
+            // frames acknowledged for the first time by what was handed to this side in this round: (age, age by its stamp)
+            let mut fresh: Vec<(u64, u64)> = Vec::new();
+            for rx in tr.rxs.iter().filter(|r| r.side == side && r.round == o.round && r.parsed) {
+                if let Some(Frame::AckFrame(a)) = &tr.ems[rx.em].frame {
+                    for g in a.frame_acks.iter() { for b in 0..32u32 { if g.bitfield >> b & 1 == 1 { let id = g.base_id.wrapping_add(b); if let Some(&(t, st)) = sent.get(&id) { if t <= o.t_ms && acked.insert(id) { fresh.push((o.t_ms - t, o.t_ms.saturating_sub(st))); } } } } }
+                }
+            }
+            let prev = if w > 0 { obs[w - 1].rtt } else { None };
+            if o.rtt == prev || !o.stepped { continue; }
+            let new = match o.rtt { Some(r) => r * 1000.0, None => continue };
+            let sample = match prev { Some(p) => (new - 0.9 * p * 1000.0) / 0.1, None => new };
+            if fresh.is_empty() {
+                return Some(viol("C14.rtt", "C14.rtt:changed-without-a-fresh-acknowledgement".into(), format!("side {}: the RTT estimate changed from {:?} to {:.4} s in round {} although no frame of this side was acknowledged for the first time in that round", side, prev, new / 1000.0, o.round)));
+            }
+            let (lo, hi) = (fresh.iter().map(|x| x.0).min().unwrap() as f64, fresh.iter().map(|x| x.1).max().unwrap() as f64);
+            if sample < lo - 1.5 || sample > hi + 1.5 {
+                return Some(viol("C14.rtt", format!("C14.rtt:sample-{}", if sample < lo { "below-the-age-of-the-youngest-frame" } else { "above-the-age-of-the-oldest-frame" }), format!("side {}: in round {} (t={} ms) the RTT estimate went from {:?} to {:.4} s, i.e. a sample of {:.1} ms entered the 0.9/0.1 average; the frames acknowledged for the first time in that round were (emitted, stamped) {:?} ms before that step", side, o.round, o.t_ms, prev, new / 1000.0, sample, fresh)));
+            }
+        }
+    }
+    None
+}
+
 /// Bounded liveness per packet: every Reliable packet is delivered exactly once within `limit_ms` of its submission (for runs in which
 /// traffic goes on until the horizon, where the at-the-horizon clauses of `oracle_c02_live` cannot be asked).
 pub fn oracle_deadline(si: &ScriptInfo, tr: &Trace, clause: &str, limit_ms: u64) -> Option<Violation> {
